@@ -377,20 +377,24 @@ def run_check(prop, spec, tier, seed, workdir, t0, only_run=None):
 
     # schedule all shards of all runs on a 16-wide pool
     jobs = []
+    # thorough tier: the whole workload is repeated under further seeds (seed, seed+1, ...); the enumerated parts are the
+    # same in every repetition, the sampled parts (shapes, erasure sets, histories, mutations, interleavings) are new ones
+    reps = spec.get("thorough_seeds", 1) if tier == "thorough" else 1
     for ri, r in enumerate(runs):
+      for rep in range(reps):
         shards = r.get("shards", NCPU)
         if callable(shards):
             shards = shards(tier)
         libdir, bins = built[r["flavour"]]
         for sh in range(shards):
-            args = ["--prop", prop, "--tier", tier, "--seed", str(seed), "--shard", "%d/%d" % (sh, shards)]
+            args = ["--prop", prop, "--tier", tier, "--seed", str(seed + rep), "--shard", "%d/%d" % (sh, shards)]
             args += [str(a) for a in r.get("args", [])]
             if tier in r.get("tier_args", {}):
                 args += [str(a) for a in r["tier_args"][tier]]
             if r.get("noise") and sh % 2 == 1:
                 # odd shards: a second thread keeps using the library (own instances + the instance under test)
                 args += ["--noise", "1"]
-            tag = "r%d_%s_s%d" % (ri, r["flavour"], sh)
+            tag = "r%d_%s_s%d" % (ri, r["flavour"], sh) + ("_x%d" % rep if rep else "")
             env = san_env(r["flavour"], libdir, r.get("leaks", False), workdir, tag)
             env.update(r.get("env", {}))
             timeout = r.get("timeout", {"quick": 600, "thorough": 7200})[tier]
@@ -509,6 +513,7 @@ def run_check(prop, spec, tier, seed, workdir, t0, only_run=None):
         "exhaustive_scope": spec.get("exhaustive_scope", ""),
         "counters": {k: v for k, v in sorted(stats.items())},
         "runs": per_run,
+        "seeds_used": [seed + i for i in range(reps)],
         "flavours": flavours,
         "sanitizer_reports": len([v for v in distinct_viol.values() if "crash:" in v[2] or "|tsan|" in v[2]]),
         "tsan_report_classes": sorted(tsan.keys()),
